@@ -43,9 +43,9 @@ Proof. exact fd_write_model. Qed.
 Print Assumptions c05_fd_write_model.
 
 (* file data (and EOF) arriving before the Metadata is never written anywhere *)
-Theorem c05_pre_metadata_no_write : forall s first off data ck sz,
+Theorem c05_pre_metadata_no_write : forall s first off data c ck sz,
   fs_d (fst (handle_fd_without_previous_metadata first off data s)) = fs_d s /\
-  fs_d (fst (handle_eof_without_previous_metadata ck sz s)) = fs_d s.
+  fs_d (fst (handle_eof_without_previous_metadata c ck sz s)) = fs_d s.
 Proof. exact pre_metadata_no_write. Qed.
 Print Assumptions c05_pre_metadata_no_write.
 
